@@ -143,6 +143,16 @@ def run(pid, path, quiet=False):
                 jk['expected'] = props_q2.the_expected
             if pid in props_q2.REPLAY_JUDGES:
                 judge = props_q2.REPLAY_JUDGES[pid](report, findings)
+            elif 'operand_quant' in case:
+                # a sub-query in OPERAND position (C15's second stream): rows against the oracle of the explicit twin only
+                jk.pop('check_tree', None)
+
+                class OJ(props_q.QueryJudge):
+                    def __call__(self, case_, res, drv):
+                        drv = {**drv}
+                        drv.pop('l2', None)
+                        super().__call__(case_, res, drv)
+                judge = OJ(report, findings, pid, **jk)
             else:
                 judge = props_q.QueryJudge(report, findings, pid, **jk)
             qcheck.run_query_cases(report, [case], cfg['opts'], judge)
